@@ -116,3 +116,33 @@ pub fn work_dir(tag: &str) -> std::path::PathBuf {
     std::fs::create_dir_all(&p).unwrap();
     p
 }
+
+thread_local! {
+    /// the script of the case being run, for the report when the implementation panics
+    pub static CURRENT_SCRIPT: std::cell::RefCell<Value> = std::cell::RefCell::new(Value::Null);
+}
+
+/// run one case; a panic of the implementation (or of a harness expectation about it) becomes
+/// an observation attached to the script executed so far
+pub fn guarded<F: FnOnce() -> crate::synchist::CaseOut>(f: F) -> crate::synchist::CaseOut {
+    CURRENT_SCRIPT.with(|c| *c.borrow_mut() = Value::Null);
+    let msg = std::sync::Arc::new(std::sync::Mutex::new(String::new()));
+    let m2 = msg.clone();
+    std::panic::set_hook(Box::new(move |info| {
+        *m2.lock().unwrap() = format!("{info}");
+    }));
+    let r = std::panic::catch_unwind(std::panic::AssertUnwindSafe(f));
+    let _ = std::panic::take_hook();
+    match r {
+        Ok(c) => c,
+        Err(_) => {
+            let script = CURRENT_SCRIPT.with(|c| c.borrow().clone());
+            crate::synchist::CaseOut {
+                coq: Value::Null,
+                script,
+                oracle: json!({"ok": false, "problems": [format!("panic while running the case: {}", msg.lock().unwrap())]}),
+                features: json!({}),
+            }
+        }
+    }
+}
